@@ -256,6 +256,11 @@ func (t *basicTaskBase) ensureBasicTaskKilled() (err error) {
 		// Wait has returned, the process has already been reaped
 		return nil
 	}
+	if t.taskCmd.Process == nil {
+		// the command could not be started (e.g. no such binary): there is no process to kill and nobody
+		// waiting for the final state of one
+		return nil
+	}
 
 	// Preparing to kill running task
 	t.pendingFinalTaskStateCh <- mesos.TASK_KILLED
